@@ -42,6 +42,14 @@ def gen(seed, tier):
                         continue
                     yield {"prop": PROP, "op": op, "d": 0, "dflt": 0, "a": a, "b": b, "kind": "fmt",
                            "fa": fa, "fb": fb, "sa": 3, "sb": 3}
+                    # the same declaration made on an unowned fiber's own rank attributes, with a
+                    # restricted active range [la, sa) every now and then
+                    if (k + j) % 2 == 0:
+                        la, sa = rng.choice([(0, 3), (0, 3), (1, 3), (0, 2), (1, 2)])
+                        lb, sb = rng.choice([(0, 3), (0, 3), (1, 3), (0, 2)])
+                        yield {"prop": PROP, "op": op, "d": 0, "dflt": 0, "a": a, "b": b, "kind": "fmt", "own": True,
+                               "fa": fa, "fb": fb, "sa": sa, "sb": sb, "la": la if fa == "U" else 0,
+                               "lb": lb if fb == "U" else 0}
     # aggregated co-iterators: n-ary two-finger intersection, n-ary union, leader-follower
     trip = list(H.all_leaf_fibers(3, [0, 1]))
     k = 0
@@ -188,7 +196,15 @@ def run(case):
     fa = H.build_fiber(case["a"], d + 1, dflt)
     fb = H.build_fiber(case["b"], d + 1, dflt)
     tensors = []
-    if case["kind"] == "fmt":
+    if case["kind"] == "fmt" and case.get("own"):
+        def own(tree, fmt, lo, hi):
+            f = ft.Fiber([c for c, _ in tree], [v for _, v in tree], default=dflt, shape=3,
+                         **({"active_range": (lo, hi)} if fmt == "U" else {}))
+            f.getRankAttrs().setFormat(fmt)
+            return f
+        fa = own(case["a"], case["fa"], case["la"], case["sa"])
+        fb = own(case["b"], case["fb"], case["lb"], case["sb"])
+    elif case["kind"] == "fmt":
         ta = ft.Tensor.fromFiber(rank_ids=["K"], fiber=fa, shape=[case["sa"]], default=dflt)
         tb = ft.Tensor.fromFiber(rank_ids=["K"], fiber=fb, shape=[case["sb"]], default=dflt)
         ta.setFormat("K", case["fa"])
